@@ -41,7 +41,7 @@ func init() {
 		gen := func(r *rand.Rand, n int, tier string) []string { return genE2E(r, n, tier, p) }
 		rule := "datasets of 1..40 events over typed columns (int, dyadic decimal, mixed, text, numeric text, sparse, bool, late) × random batch/flush/rotate histories × queries of profile " + p + "; each case runs in its own engine process; non-trivial = ≥3 events and ≥1 query"
 		if p == "c02" || p == "c03" {
-			rule += "; literal and column of different kinds by construction: quoted numbers against numbers, numeric text and text, text against numbers and booleans, wildcards against numbers, numeric text at the edges of the number grammar (+5, 1E2, 5., .5, 1e, -, e5, 0x10, nan, 1_000), a column mixing numbers, numeric text and text per block, free-text terms that are numbers; case-sensitive words and phrases (CASE(…)) and phrases over values in which the word first occurs inside a longer token and later as a whole word; multi-word values with capitals, never stored in lower case, searched by full value and phrase in another case"
+			rule += "; literal and column of different kinds by construction: quoted numbers against numbers, numeric text and text, text against numbers and booleans, wildcards against numbers, numeric text at the edges of the number grammar (+5, 1E2, 5., .5, 1e, -, e5, 0x10, nan, 1_000), a column mixing numbers, numeric text and text per block, free-text terms that are numbers, also under NOT alone and inside AND / OR; case-sensitive words and phrases (CASE(…)) and phrases over values in which the word first occurs inside a longer token and later as a whole word; multi-word values with capitals, never stored in lower case, searched by full value and phrase in another case"
 			if p == "c02" {
 				rule += "; every single numeric comparison once in the search clause and once as a where stage"
 			}
@@ -55,7 +55,7 @@ func init() {
 			case "c03":
 				rule += "; persistent-query results on/off per layout, the same filter run again over other windows (narrow around the cluster, then wide) with waits for the background persistent-query write, queries inside the history"
 			case "c04":
-				rule += "; stats and first-stage timechart (span, count/sum/min/max/avg/dc, by-field) with events exactly on the query bounds and on cell edges; distinct counts and group keys over integers beyond 2^53 that differ in their low bits; count(field), avg, sum, min, max over sparse measure fields and over a column holding numbers, numeric text and text per block; the same stats / timechart behind another command (stats and timechart PROCESSORS of the pipeline: same groups, same series names); events still in the write buffer when the queries run (search, stats and stats by must agree on them)"
+				rule += "; stats and first-stage timechart (span, count/sum/min/max/avg/dc, by-field) with events exactly on the query bounds and on cell edges; distinct counts and group keys over integers beyond 2^53 that differ in their low bits; count(field), avg, sum, min, max over sparse measure fields and over a column holding numbers, numeric text and text per block; the same stats / timechart behind another command (stats and timechart PROCESSORS of the pipeline: same groups, same series names); events still in the write buffer when the queries run (search, stats and stats by must agree on them); windows that hold no block at all (stats without by still has its one row, in the search stage and in the stats processor)"
 			}
 		}
 		register(&Suite{Name: "e2e_" + p, Parallel: 6, Gen: gen, Exec: execE2E, Rule: rule})
@@ -386,7 +386,30 @@ func genCmpText(r *rand.Rand) string {
 	}
 }
 
+// a free-text term that is a NUMBER under a NOT, alone and inside AND / OR (the complement of "some field equals n")
+func genNegatedNumber(r *rand.Rand, profile string) string {
+	n := "t:" + hexs([]string{"3", "7", "12", "2.5", "-1", "0", "5", "7.0", "2.50", "4", "1"}[r.Intn(11)])
+	w := "t:" + hexs([]string{"abc", "xyz", "foo", "hello", "red"}[r.Intn(5)])
+	switch r.Intn(7) {
+	case 0, 1:
+		return n + ",not"
+	case 2:
+		return w + "," + n + ",or,not"
+	case 3:
+		return genCmpDense(r, profile) + "," + n + ",not,and"
+	case 4:
+		return w + "," + n + ",not,or"
+	case 5:
+		return n + ",not," + genCmpDense(r, profile) + ",or"
+	default:
+		return n + ",not,not"
+	}
+}
+
 func genFilter(r *rand.Rand, depth int, profile string) string {
+	if (profile == "c02" || profile == "c03") && depth > 0 && r.Intn(10) == 0 {
+		return genNegatedNumber(r, profile)
+	}
 	if depth == 0 || r.Intn(4) == 0 {
 		return genCmp(r, profile) // a single comparison over any column
 	}
@@ -806,11 +829,13 @@ func genE2EV2(r *rand.Rand, n int, tier, profile string) []string {
 		if profile == "c03" {
 			for len(hot) < 2 {
 				f := genCmpDense(r, profile)
-				switch r.Intn(4) {
+				switch r.Intn(5) {
 				case 0:
 					f = genBool(r, 1, profile, true)
 				case 1:
 					f = genCmp(r, profile) // any column, sparse ones included
+				case 2:
+					f = genNegatedNumber(r, profile) // evaluated as an exclusion, also at ingest time
 				}
 				hot = append(hot, f)
 			}
@@ -972,6 +997,11 @@ func genE2EV2(r *rand.Rand, n int, tier, profile string) []string {
 			nq := 3 + r.Intn(6)
 			for q := 0; q < nq; q++ {
 				s, e := g.window(maxTs)
+				if r.Intn(10) == 0 {
+					// a window that holds no block at all: stats without by still has its one row (count 0), in the search
+					// stage and in the stats processor alike
+					s, e = e2eBase-200000, e2eBase-100000-uint64(r.Intn(1000))
+				}
 				f := "all"
 				if r.Intn(3) == 0 {
 					f = fmt.Sprintf("c:i:%s:i%d", []string{"lt", "ge", "gt", "le"}[r.Intn(4)], r.Intn(20))
@@ -1943,11 +1973,41 @@ func e2eQueryTags(tok string, q e2eQuery, evTs []uint64, seenFilter map[string]s
 	if q.proc {
 		tags["stats/timechart-processor-path"] = true
 	}
+	if len(evTs) > 0 && (q.kind == "stats" || q.kind == "tc") {
+		lo, hi := evTs[0], evTs[0]
+		for _, ts := range evTs {
+			if ts < lo {
+				lo = ts
+			}
+			if ts > hi {
+				hi = ts
+			}
+		}
+		if q.end < lo || q.start > hi {
+			tags["stats-over-window-holding-no-block"] = true
+			if q.proc {
+				tags["stats-processor-over-window-holding-no-block"] = true
+			}
+		}
+	}
 	if q.where {
 		tags["where-stage"] = true
 	}
+	var numTerm []bool // RPN stack: the subexpression holds a free-text term that is a number
 	for _, it := range strings.Split(p[5], ",") {
 		ip := strings.Split(it, ":")
+		switch {
+		case it == "and" || it == "or":
+			if n := len(numTerm); n >= 2 {
+				numTerm = append(numTerm[:n-2], numTerm[n-2] || numTerm[n-1])
+			}
+		case it == "not":
+			if n := len(numTerm); n >= 1 && numTerm[n-1] {
+				tags["filter:numeric-free-text-term-under-NOT"] = true
+			}
+		default:
+			numTerm = append(numTerm, len(ip) == 2 && ip[0] == "t" && e2eNumStrRe.MatchString(unhexs(ip[1])))
+		}
 		if len(ip) == 4 && ip[0] == "c" && len(ip[3]) > 0 {
 			col, lit := ip[1], ip[3]
 			quotedNum := lit[0] == 's' && e2eNumStrRe.MatchString(unhexs(lit[1:]))
